@@ -13,7 +13,7 @@
 //! and written into the request, so `rand`'s stream is not part of the model.
 use crate::util::*;
 use linfa::dataset::{AsTargets, CountedTargets, Dataset, DatasetBase, DatasetView, Label, Labels, Records};
-use ndarray::{s, Array1, Array2, ArrayBase, Axis, Data, Dimension, Ix1, Ix2};
+use ndarray::{s, Array1, Array2, ArrayBase, Axis, Data, Dimension, Ix1, Ix2, ShapeBuilder};
 use rand::{rngs::SmallRng, SeedableRng};
 use std::collections::{BTreeMap, BTreeSet, HashMap};
 use std::panic::{catch_unwind, AssertUnwindSafe};
@@ -173,20 +173,63 @@ enum StAny {
     S(St<&'static str>),
 }
 
-/// a dataset with exactly the given public content (constructors only)
-fn build<L: Lab>(s: &Snap) -> St<L> {
-    let recs = Array2::from_shape_vec((s.n, s.p), s.recs.iter().flatten().map(|x| *x as f64).collect()).unwrap();
-    let w = Array1::from(s.w.iter().map(|x| *x as f32).collect::<Vec<f32>>());
-    let flat: Vec<L> = s.tg.iter().flatten().map(|c| L::from_code(*c)).collect();
+/// memory layout of the three arrays a step's dataset is built with (records, targets, weights):
+/// 0 = C-contiguous own buffer, 1 = F-order (column-major), 2 = rows `2..2+n` of a larger
+/// allocation (`slice_move`: standard layout, but offset and surplus elements in the raw vector),
+/// 3 = every second row and column of a larger allocation (strided, not contiguous),
+/// 4 = rows stored in reverse order (negative stride).  Cells outside the array proper hold fillers
+/// that belong to no sample, so an operation that reads the raw buffer shows up in the tags.
+#[derive(Clone, Copy, Debug, PartialEq)]
+struct Lay {
+    r: u8,
+    t: u8,
+    w: u8,
+}
+const LAY_C: Lay = Lay { r: 0, t: 0, w: 0 };
+impl Lay {
+    fn show(&self) -> String {
+        format!("{}{}{}", self.r, self.t, self.w)
+    }
+}
+
+fn arr2<A: Clone>(n: usize, p: usize, rows: &[Vec<A>], lay: u8, fill: A) -> Array2<A> {
+    let at = |i: usize, j: usize| rows[i][j].clone();
+    match lay {
+        1 => Array2::from_shape_fn((n, p).f(), |(i, j)| at(i, j)),
+        2 => Array2::from_shape_fn((n + 3, p), |(i, j)| if i >= 2 && i < 2 + n { at(i - 2, j) } else { fill.clone() }).slice_move(s![2..2 + n, ..]),
+        3 => Array2::from_shape_fn((2 * n + 1, 2 * p + 1), |(i, j)| if i % 2 == 1 && j % 2 == 1 { at(i / 2, j / 2) } else { fill.clone() }).slice_move(s![1..;2, 1..;2]),
+        4 => Array2::from_shape_fn((n, p), |(i, j)| at(n - 1 - i, j)).slice_move(s![..;-1, ..]),
+        _ => Array2::from_shape_fn((n, p), |(i, j)| at(i, j)),
+    }
+}
+fn arr1<A: Clone>(xs: &[A], lay: u8, fill: A) -> Array1<A> {
+    let n = xs.len();
+    match lay {
+        2 => Array1::from_shape_fn(n + 3, |i| if i >= 2 && i < 2 + n { xs[i - 2].clone() } else { fill.clone() }).slice_move(s![2..2 + n]),
+        3 => Array1::from_shape_fn(2 * n + 1, |i| if i % 2 == 1 { xs[i / 2].clone() } else { fill.clone() }).slice_move(s![1..;2]),
+        4 => Array1::from_shape_fn(n, |i| xs[n - 1 - i].clone()).slice_move(s![..;-1]),
+        _ => Array1::from(xs.to_vec()),
+    }
+}
+
+/// a dataset with exactly the given public content (constructors only), in the given memory layout
+fn build<L: Lab>(s: &Snap, lay: Lay) -> St<L> {
+    let cells: Vec<Vec<f64>> = s.recs.iter().map(|r| r.iter().map(|x| *x as f64).collect()).collect();
+    let recs = arr2(s.n, s.p, &cells, lay.r, 7777.0);
+    debug_assert_eq!(recs.dim(), (s.n, s.p));
+    // `weights()` needs a contiguous weight array: own buffer or a slice of a larger one
+    let w = arr1(&s.w.iter().map(|x| *x as f32).collect::<Vec<f32>>(), if lay.w == 2 { 2 } else { 0 }, 5555.0);
     if s.ix1 {
-        let tg = Array1::from(flat);
+        let flat: Vec<L> = s.tg.iter().flatten().map(|c| L::from_code(*c)).collect();
+        let tg = arr1(&flat, lay.t, L::from_code(0));
         if s.counts.is_some() {
             St::C1(DatasetBase::new(recs, CountedTargets::new(tg)).with_weights(w).with_feature_names(s.fnames.clone()).with_target_names(s.tnames.clone()))
         } else {
             St::P1(Dataset::new(recs, tg).with_weights(w).with_feature_names(s.fnames.clone()).with_target_names(s.tnames.clone()))
         }
     } else {
-        let tg = Array2::from_shape_vec((s.n, s.t), flat).unwrap();
+        let labs: Vec<Vec<L>> = s.tg.iter().map(|r| r.iter().map(|c| L::from_code(*c)).collect()).collect();
+        let tg = arr2(s.n, s.t, &labs, lay.t, L::from_code(0));
         if s.counts.is_some() {
             St::C2(DatasetBase::new(recs, CountedTargets::new(tg)).with_weights(w).with_feature_names(s.fnames.clone()).with_target_names(s.tnames.clone()))
         } else {
@@ -194,11 +237,27 @@ fn build<L: Lab>(s: &Snap) -> St<L> {
         }
     }
 }
-fn build_any(lt: char, s: &Snap) -> StAny {
+/// both `is_standard_layout()` asserts of the owned split hold for this dataset
+fn std_layout<L: Lab>(st: &St<L>) -> bool {
+    match st {
+        St::P1(x) => x.records().is_standard_layout() && x.targets().is_standard_layout(),
+        St::P2(x) => x.records().is_standard_layout() && x.targets().is_standard_layout(),
+        St::C1(x) => x.records().is_standard_layout() && x.as_targets().is_standard_layout(),
+        St::C2(x) => x.records().is_standard_layout() && x.as_targets().is_standard_layout(),
+    }
+}
+fn build_any(lt: char, s: &Snap, lay: Lay) -> StAny {
     match lt {
-        'u' => StAny::U(build(s)),
-        'b' => StAny::B(build(s)),
-        _ => StAny::S(build(s)),
+        'u' => StAny::U(build(s, lay)),
+        'b' => StAny::B(build(s, lay)),
+        _ => StAny::S(build(s, lay)),
+    }
+}
+fn std_any(st: &StAny) -> bool {
+    match st {
+        StAny::U(s) => std_layout(s),
+        StAny::B(s) => std_layout(s),
+        StAny::S(s) => std_layout(s),
     }
 }
 
@@ -207,9 +266,10 @@ enum Op {
     SplitV { r: f32 },
     SplitO { r: f32 },
     Shuffle { v: bool, seed: u64 },
-    Boot { v: bool, ns: usize, nf: usize, seed: u64 },
-    BootS { v: bool, ns: usize, seed: u64 },
-    BootF { v: bool, nf: usize, seed: u64 },
+    /// `draw`: which item of the (infinite) bootstrap iterator is looked at
+    Boot { v: bool, ns: usize, nf: usize, seed: u64, draw: usize },
+    BootS { v: bool, ns: usize, seed: u64, draw: usize },
+    BootF { v: bool, nf: usize, seed: u64, draw: usize },
     WithLabels { v: bool, labs: Vec<usize> },
     OneVsAll { v: bool },
     Map { v: bool, lt2: char, tab: Vec<usize> },
@@ -220,6 +280,10 @@ enum Op {
     FeatureIter { v: bool },
     TargetIter { v: bool },
     Chunks { v: bool, size: usize },
+    /// `weight_for(i)` for `i = 0 .. n+1`
+    WeightFor { v: bool },
+    /// `label_frequencies_with_mask(mask)` (`label_frequencies()` when the mask is empty)
+    LabelFreq { v: bool, mask: Vec<bool> },
 }
 impl Op {
     fn name(&self) -> &'static str {
@@ -240,13 +304,15 @@ impl Op {
             Op::FeatureIter { .. } => "featureIter",
             Op::TargetIter { .. } => "targetIter",
             Op::Chunks { .. } => "chunks",
+            Op::WeightFor { .. } => "weightFor",
+            Op::LabelFreq { .. } => "labelFreq",
         }
     }
     fn through_view(&self) -> bool {
         match self {
             Op::SplitV { .. } | Op::View => true,
             Op::SplitO { .. } | Op::IntoSingle => false,
-            Op::Shuffle { v, .. } | Op::Boot { v, .. } | Op::BootS { v, .. } | Op::BootF { v, .. } | Op::WithLabels { v, .. } | Op::OneVsAll { v } | Op::Map { v, .. } | Op::ToOwned { v } | Op::SampleIter { v } | Op::FeatureIter { v } | Op::TargetIter { v } | Op::Chunks { v, .. } => *v,
+            Op::Shuffle { v, .. } | Op::Boot { v, .. } | Op::BootS { v, .. } | Op::BootF { v, .. } | Op::WithLabels { v, .. } | Op::OneVsAll { v } | Op::Map { v, .. } | Op::ToOwned { v } | Op::SampleIter { v } | Op::FeatureIter { v } | Op::TargetIter { v } | Op::Chunks { v, .. } | Op::WeightFor { v } | Op::LabelFreq { v, .. } => *v,
         }
     }
 }
@@ -260,6 +326,10 @@ struct Res {
     labels: Vec<usize>,
     /// sample_iter: the pairs it yielded
     pairs: Option<Vec<(Vec<u64>, Vec<usize>)>>,
+    /// weight_for: the values for i = 0 .. n+1
+    wfor: Option<Vec<u64>>,
+    /// label_frequencies_with_mask: (label code, summed weight), sorted by code
+    freqs: Option<Vec<(usize, u64)>>,
 }
 
 /// `$d` is bound to the owned dataset (by reference) or to a view of it
@@ -426,17 +496,17 @@ fn exec<L: Lab>(st: &St<L>, op: &Op) -> Res {
             let mut rng = SmallRng::seed_from_u64(*seed);
             res.outs = vec![each!(st, *v, |d| snap(&d.shuffle(&mut rng)))];
         }
-        Op::Boot { v, ns, nf, seed } => {
+        Op::Boot { v, ns, nf, seed, draw } => {
             let mut rng = SmallRng::seed_from_u64(*seed);
-            res.outs = vec![each!(st, *v, |d| snap(&d.bootstrap((*ns, *nf), &mut rng).next().unwrap()))];
+            res.outs = vec![each!(st, *v, |d| snap(&d.bootstrap((*ns, *nf), &mut rng).nth(*draw).unwrap()))];
         }
-        Op::BootS { v, ns, seed } => {
+        Op::BootS { v, ns, seed, draw } => {
             let mut rng = SmallRng::seed_from_u64(*seed);
-            res.outs = vec![each!(st, *v, |d| snap(&d.bootstrap_samples(*ns, &mut rng).next().unwrap()))];
+            res.outs = vec![each!(st, *v, |d| snap(&d.bootstrap_samples(*ns, &mut rng).nth(*draw).unwrap()))];
         }
-        Op::BootF { v, nf, seed } => {
+        Op::BootF { v, nf, seed, draw } => {
             let mut rng = SmallRng::seed_from_u64(*seed);
-            res.outs = vec![each!(st, *v, |d| snap(&d.bootstrap_features(*nf, &mut rng).next().unwrap()))];
+            res.outs = vec![each!(st, *v, |d| snap(&d.bootstrap_features(*nf, &mut rng).nth(*draw).unwrap()))];
         }
         Op::WithLabels { v, labs } => {
             let labs: Vec<L> = labs.iter().map(|c| L::from_code(*c)).collect();
@@ -482,6 +552,19 @@ fn exec<L: Lab>(st: &St<L>, op: &Op) -> Res {
         Op::Chunks { v, size } => {
             res.outs = each!(st, *v, |d| d.sample_chunks(*size).map(|x| snap(&x)).collect());
         }
+        Op::WeightFor { v } => {
+            res.wfor = Some(each!(st, *v, |d| (0..d.nsamples() + 2).map(|i| d.weight_for(i) as u64).collect()));
+            res.outs = vec![each_own!(st, |d| snap(d))];
+        }
+        Op::LabelFreq { v, mask } => {
+            let m: HashMap<L, f32> = each!(st, *v, |d| if mask.is_empty() { d.label_frequencies() } else { d.label_frequencies_with_mask(mask) });
+            let mut fr: Vec<(usize, u64)> = m.iter().map(|(k, x)| (k.code(), *x as u64)).collect();
+            fr.sort();
+            // the weights are integers, so are their sums (exact in f32 far beyond these sizes)
+            assert!(m.values().all(|x| *x == (*x as u64) as f32), "label frequency is not an integer");
+            res.freqs = Some(fr);
+            res.outs = vec![each_own!(st, |d| snap(d))];
+        }
     }
     res
 }
@@ -499,12 +582,21 @@ fn exec_any(st: &StAny, op: &Op) -> Option<Res> {
 
 /// sample indices chosen by the implementation, from the record tags: the smallest (for a
 /// permutation: smallest unused) input row with the same id
+/// (with zero-width records the row is recognised by its targets: any consistent choice reproduces
+/// the same result, and the oracle still demands a permutation / existing rows)
 fn read_rows(inp: &Snap, out: &Snap, distinct: bool) -> Option<Vec<usize>> {
     let mut used = vec![false; inp.n];
     let mut idx = vec![];
-    for row in &out.recs {
-        let id = row.first()? / 8;
-        let k = (0..inp.n).find(|i| !(distinct && used[*i]) && inp.recs[*i].first().map(|c| c / 8) == Some(id))?;
+    for (ro, row) in out.recs.iter().enumerate() {
+        let k = match row.first() {
+            Some(c) => {
+                let id = c / 8;
+                (0..inp.n).find(|i| !(distinct && used[*i]) && inp.recs[*i].first().map(|c| c / 8) == Some(id))?
+            }
+            // zero-width records: the weight (if the result carries weights) or else the target row
+            None if out.w.len() == out.n && inp.w.len() == inp.n && out.n > 0 => (0..inp.n).find(|i| !(distinct && used[*i]) && inp.w.get(*i) == out.w.get(ro))?,
+            None => (0..inp.n).find(|i| !(distinct && used[*i]) && inp.tg.get(*i) == out.tg.get(ro))?,
+        };
         used[k] = true;
         idx.push(k);
     }
@@ -536,11 +628,35 @@ fn recount(tg: &[Vec<usize>], t: usize) -> Vec<Vec<(usize, usize)>> {
         .collect()
 }
 
+/// which of weights / feature names / target names an operation is documented (or built) to hand on
+#[derive(Clone, Copy)]
+struct Keep {
+    w: bool,
+    f: bool,
+    t: bool,
+}
+const KEEP_ALL: Keep = Keep { w: true, f: true, t: true };
+const KEEP_NONE: Keep = Keep { w: false, f: false, t: false };
+
 /// alignment of one returned dataset with the step's input: row k of the output is input row
 /// idx[k] (record columns `cols`, target columns `tcols`, labels through `f`), weights and names —
 /// whenever carried — are those of the same rows / columns; cached label counts are a recount.
-fn aligned(ctx: &mut Ctx, class: &str, what: &str, inp: &Snap, out: &Snap, idx: &[usize], cols: &[usize], tcols: &[usize], f: &dyn Fn(usize) -> usize) -> bool {
+fn aligned(ctx: &mut Ctx, class: &str, what: &str, inp: &Snap, out: &Snap, idx: &[usize], cols: &[usize], tcols: &[usize], f: &dyn Fn(usize) -> usize, keep: Keep) -> bool {
     let mut ok = true;
+    // "beyond the documented selection nothing changes": operations that hand weights / names on today
+    // (splits, label filter, one-vs-all, map, view, column iterators) must not start losing them
+    if keep.w && inp.w.len() == inp.n && !idx.is_empty() && out.w.len() != idx.len() {
+        ctx.fail("metadata_kept", class, format!("{}: input has one weight per sample, the result carries {} weights for {} samples", what, out.w.len(), idx.len()));
+        ok = false;
+    }
+    if keep.f && !inp.fnames.is_empty() && !cols.is_empty() && out.fnames.len() != cols.len() {
+        ctx.fail("metadata_kept", class, format!("{}: input has feature names {:?}, the result {:?}", what, inp.fnames, out.fnames));
+        ok = false;
+    }
+    if keep.t && !inp.tnames.is_empty() && !tcols.is_empty() && out.tnames.len() != tcols.len() {
+        ctx.fail("metadata_kept", class, format!("{}: input has target names {:?}, the result {:?}", what, inp.tnames, out.tnames));
+        ok = false;
+    }
     let want_r: Option<Vec<Vec<u64>>> = sel(&inp.recs, idx).and_then(|rows| rows.iter().map(|r| sel(r, cols)).collect());
     let want_t: Option<Vec<Vec<usize>>> = sel(&inp.tg, idx).and_then(|rows| rows.iter().map(|r| sel(r, tcols).map(|x| x.iter().map(|c| f(*c)).collect())).collect());
     if want_r.as_ref() != Some(&out.recs) || out.n != idx.len() || out.p != cols.len() {
@@ -621,9 +737,11 @@ fn class_of(op: &Op, inp: &Snap) -> String {
 }
 
 /// does the property promise a result for this step?
-fn promised(op: &Op, inp: &Snap) -> bool {
+fn promised(op: &Op, inp: &Snap, std: bool) -> bool {
     match op {
-        Op::SplitV { r } | Op::SplitO { r } => *r >= 0.0 && *r <= 1.0,
+        Op::SplitV { r } => *r >= 0.0 && *r <= 1.0,
+        // the owned split documents a panic for records / targets that are not in row-major layout
+        Op::SplitO { r } => *r >= 0.0 && *r <= 1.0 && std,
         Op::Boot { ns, nf, .. } => (inp.n > 0 || *ns == 0) && (inp.p > 0 || *nf == 0),
         Op::BootS { ns, .. } => inp.n > 0 || *ns == 0,
         Op::BootF { nf, .. } => inp.p > 0 || *nf == 0,
@@ -652,8 +770,8 @@ fn oracle_step(ctx: &mut Ctx, op: &Op, inp: &Snap, res: &Res, idx: &Option<Vec<u
                 return;
             }
             ctx.require(res.outs[0].n == n1 && res.outs[1].n == inp.n - n1, "split_first_ceil", &class, || format!("n={} ratio={:?}: parts of {} and {} samples, want ceil = {}", inp.n, r, res.outs[0].n, res.outs[1].n, n1));
-            aligned(ctx, &class, "first part", inp, &res.outs[0], &all[..n1.min(inp.n)], &cols, &tcols, &id);
-            aligned(ctx, &class, "second part", inp, &res.outs[1], &all[n1.min(inp.n)..], &cols, &tcols, &id);
+            aligned(ctx, &class, "first part", inp, &res.outs[0], &all[..n1.min(inp.n)], &cols, &tcols, &id, KEEP_ALL);
+            aligned(ctx, &class, "second part", inp, &res.outs[1], &all[n1.min(inp.n)..], &cols, &tcols, &id, KEEP_ALL);
         }
         Op::Shuffle { .. } => {
             let o = &res.outs[0];
@@ -662,7 +780,7 @@ fn oracle_step(ctx: &mut Ctx, op: &Op, inp: &Snap, res: &Res, idx: &Option<Vec<u
                     let mut sorted = ix.clone();
                     sorted.sort();
                     ctx.require(sorted == all, "shuffle_perm", &class, || format!("rows {:?} are not a permutation of 0..{}", ix, inp.n));
-                    aligned(ctx, &class, "shuffled", inp, o, ix, &cols, &tcols, &id);
+                    aligned(ctx, &class, "shuffled", inp, o, ix, &cols, &tcols, &id, Keep { w: false, f: true, t: true });
                 }
                 _ => ctx.fail("shuffle_perm", &class, format!("shuffled records {:?} are not a permutation of {:?}", o.recs, inp.recs)),
             }
@@ -673,7 +791,7 @@ fn oracle_step(ctx: &mut Ctx, op: &Op, inp: &Snap, res: &Res, idx: &Option<Vec<u
         Op::WithLabels { labs, .. } => {
             let keep: Vec<usize> = (0..inp.n).filter(|i| inp.tg[*i].iter().any(|c| labs.contains(c))).collect();
             let o = &res.outs[0];
-            if aligned(ctx, &class, "filtered", inp, o, &keep, &cols, &tcols, &id) {
+            if aligned(ctx, &class, "filtered", inp, o, &keep, &cols, &tcols, &id, KEEP_ALL) {
                 let kept_t: Vec<Vec<usize>> = keep.iter().map(|i| inp.tg[*i].clone()).collect();
                 ctx.require(o.counts == Some(recount(&kept_t, inp.t)), "label_counts", &class, || format!("label counts {:?} for kept targets {:?}", o.counts, kept_t));
             } else {
@@ -685,21 +803,24 @@ fn oracle_step(ctx: &mut Ctx, op: &Op, inp: &Snap, res: &Res, idx: &Option<Vec<u
             ctx.require(res.labels == distinct, "one_vs_all_labels", &class, || format!("one view per distinct label: got labels {:?}, distinct labels {:?}", res.labels, distinct));
             for (l, o) in res.labels.iter().zip(res.outs.iter()) {
                 let l = *l;
-                aligned(ctx, &class, &format!("label {}", l), inp, o, &all, &cols, &tcols, &move |c| (c == l) as usize);
+                aligned(ctx, &class, &format!("label {}", l), inp, o, &all, &cols, &tcols, &move |c| (c == l) as usize, KEEP_ALL);
                 ctx.require(o.counts.is_some(), "label_counts", &class, || "one_vs_all view without label counts".to_string());
             }
         }
         Op::Map { tab, .. } => {
-            aligned(ctx, &class, "mapped", inp, &res.outs[0], &all, &cols, &tcols, &|c| tab[c]);
+            aligned(ctx, &class, "mapped", inp, &res.outs[0], &all, &cols, &tcols, &|c| tab[c], KEEP_ALL);
         }
-        Op::View | Op::ToOwned { .. } => {
-            aligned(ctx, &class, op.name(), inp, &res.outs[0], &all, &cols, &tcols, &id);
+        Op::View => {
+            aligned(ctx, &class, op.name(), inp, &res.outs[0], &all, &cols, &tcols, &id, KEEP_ALL);
+        }
+        Op::ToOwned { .. } => {
+            aligned(ctx, &class, op.name(), inp, &res.outs[0], &all, &cols, &tcols, &id, KEEP_NONE);
         }
         // documented to panic unless there is exactly one target column; nothing is promised otherwise
         Op::IntoSingle if inp.t != 1 => {}
         Op::IntoSingle => {
             let o = &res.outs[0];
-            aligned(ctx, &class, "single target", inp, o, &all, &cols, &tcols, &id);
+            aligned(ctx, &class, "single target", inp, o, &all, &cols, &tcols, &id, KEEP_NONE);
             ctx.require(o.ix1, "single_target_shape", &class, || "targets still two-dimensional".to_string());
         }
         Op::SampleIter { .. } => {
@@ -709,20 +830,41 @@ fn oracle_step(ctx: &mut Ctx, op: &Op, inp: &Snap, res: &Res, idx: &Option<Vec<u
         Op::FeatureIter { .. } => {
             ctx.require(res.outs.len() == inp.p, "one_view_per_column", &class, || format!("{} views for {} features", res.outs.len(), inp.p));
             for (j, o) in res.outs.iter().enumerate() {
-                aligned(ctx, &class, &format!("feature {}", j), inp, o, &all, &[j], &tcols, &id);
+                aligned(ctx, &class, &format!("feature {}", j), inp, o, &all, &[j], &tcols, &id, Keep { w: true, f: false, t: true });
             }
         }
         Op::TargetIter { .. } => {
             ctx.require(res.outs.len() == inp.t, "one_view_per_column", &class, || format!("{} views for {} targets", res.outs.len(), inp.t));
             for (c, o) in res.outs.iter().enumerate() {
-                aligned(ctx, &class, &format!("target {}", c), inp, o, &all, &cols, &[c], &id);
+                aligned(ctx, &class, &format!("target {}", c), inp, o, &all, &cols, &[c], &id, KEEP_ALL);
             }
         }
         Op::Chunks { size, .. } => {
+            // every full block, none skipped, none twice (a trailing partial block — not yielded today —
+            // would be one more chunk of the same kind)
+            let full = inp.n / size;
+            ctx.require(res.outs.len() == full || (inp.n % size != 0 && res.outs.len() == full + 1), "chunk_count", &class, || format!("{} chunks of size {} from {} samples, want {}", res.outs.len(), size, inp.n, full));
             for (i, o) in res.outs.iter().enumerate() {
-                let blk: Vec<usize> = (i * size..(i + 1) * size).collect();
-                aligned(ctx, &class, &format!("chunk {}", i), inp, o, &blk, &cols, &tcols, &id);
+                let blk: Vec<usize> = (i * size..((i + 1) * size).min(inp.n.max(full * size))).collect();
+                aligned(ctx, &class, &format!("chunk {}", i), inp, o, &blk, &cols, &tcols, &id, KEEP_NONE);
             }
+        }
+        Op::WeightFor { .. } => {
+            let want: Vec<u64> = (0..inp.n + 2).map(|i| inp.w.get(i).copied().unwrap_or(1)).collect();
+            ctx.require(res.wfor.as_ref() == Some(&want), "weight_for_sample", &class, || format!("weight_for(0..n+2) = {:?}, weights {:?}", res.wfor, inp.w));
+        }
+        Op::LabelFreq { mask, .. } => {
+            // every sample that passes the mask adds *its own* weight (1 without weights) to each of its labels
+            let mut m: BTreeMap<usize, u64> = BTreeMap::new();
+            for i in 0..inp.n {
+                if *mask.get(i).unwrap_or(&true) {
+                    for c in &inp.tg[i] {
+                        *m.entry(*c).or_insert(0) += inp.w.get(i).copied().unwrap_or(1);
+                    }
+                }
+            }
+            let want: Vec<(usize, u64)> = m.into_iter().collect();
+            ctx.require(res.freqs.as_ref() == Some(&want), "label_freq_own_weight", &class, || format!("mask {:?}: frequencies {:?}, want {:?} (targets {:?}, weights {:?})", mask, res.freqs, want, inp.tg, inp.w));
         }
     }
 }
@@ -732,7 +874,7 @@ fn boot_oracle(ctx: &mut Ctx, class: &str, inp: &Snap, o: &Snap, idx: &Option<Ve
     match (idx, fidx) {
         (Some(ix), Some(fx)) if ix.len() == o.n && fx.len() == o.p => {
             let tcols: Vec<usize> = (0..inp.t).collect();
-            aligned(ctx, class, "bootstrap", inp, o, ix, fx, &tcols, &|c| c);
+            aligned(ctx, class, "bootstrap", inp, o, ix, fx, &tcols, &|c| c, KEEP_NONE);
         }
         _ => ctx.fail("bootstrap_mem", class, format!("drawn records {:?} are not rows/columns of {:?}", o.recs, inp.recs)),
     }
@@ -744,23 +886,64 @@ fn boot_oracle(ctx: &mut Ctx, class: &str, inp: &Snap, o: &Snap, idx: &Option<Ve
 struct StepRec {
     op: Op,
     pick: usize,
+    lay: Lay,
 }
 
-fn op_token(op: &Op, pick: usize, idx: &Option<Vec<usize>>, fidx: &Option<Vec<usize>>) -> String {
+fn op_token(op: &Op, lay: Lay, std: bool, pick: usize, idx: &Option<Vec<usize>>, fidx: &Option<Vec<usize>>) -> String {
     let li = |v: &Option<Vec<usize>>| list(v.clone().unwrap_or_default().iter(), |x| x.to_string());
     let body = match op {
-        Op::SplitV { r } | Op::SplitO { r } => format!("r={}", hex32(*r)),
+        Op::SplitV { r } => format!("r={}", hex32(*r)),
+        Op::SplitO { r } => format!("r={}:std={}", hex32(*r), std as u8),
         Op::Shuffle { v, seed } => format!("v={}:seed={}:idx={}", *v as u8, seed, li(idx)),
-        Op::Boot { v, ns, nf, seed } => format!("v={}:seed={}:ns={}:nf={}:idx={}:fidx={}", *v as u8, seed, ns, nf, li(idx), li(fidx)),
-        Op::BootS { v, ns, seed } => format!("v={}:seed={}:ns={}:idx={}", *v as u8, seed, ns, li(idx)),
-        Op::BootF { v, nf, seed } => format!("v={}:seed={}:nf={}:fidx={}", *v as u8, seed, nf, li(fidx)),
+        Op::Boot { v, ns, nf, seed, draw } => format!("v={}:seed={}:draw={}:ns={}:nf={}:idx={}:fidx={}", *v as u8, seed, draw, ns, nf, li(idx), li(fidx)),
+        Op::BootS { v, ns, seed, draw } => format!("v={}:seed={}:draw={}:ns={}:idx={}", *v as u8, seed, draw, ns, li(idx)),
+        Op::BootF { v, nf, seed, draw } => format!("v={}:seed={}:draw={}:nf={}:fidx={}", *v as u8, seed, draw, nf, li(fidx)),
         Op::WithLabels { v, labs } => format!("v={}:labs={}", *v as u8, list(labs.iter(), |x| x.to_string())),
-        Op::OneVsAll { v } | Op::ToOwned { v } | Op::SampleIter { v } | Op::FeatureIter { v } | Op::TargetIter { v } => format!("v={}", *v as u8),
+        Op::OneVsAll { v } | Op::ToOwned { v } | Op::SampleIter { v } | Op::FeatureIter { v } | Op::TargetIter { v } | Op::WeightFor { v } => format!("v={}", *v as u8),
+        Op::LabelFreq { v, mask } => format!("v={}:mask={}", *v as u8, list(mask.iter(), |x| (*x as u8).to_string())),
         Op::Map { v, lt2, tab } => format!("v={}:lt2={}:tab={}", *v as u8, lt2, list(tab.iter(), |x| x.to_string())),
         Op::View | Op::IntoSingle => "v=0".to_string(),
         Op::Chunks { v, size } => format!("v={}:size={}", *v as u8, size),
     };
-    format!("{}:{}:pick={}", op.name(), body, pick)
+    format!("{}:{}:lay={}:pick={}", op.name(), body, lay.show(), pick)
+}
+
+/// The statement demands weights / names only "whenever the result carries" them.  Operations that
+/// today return bare records and targets (shuffle: no weights; bootstrap*, to_owned,
+/// into_single_target, sample_chunks: no weights, no names; feature_iter: no feature name unless
+/// there is exactly one feature) may start carrying them: what they carry has been checked by the
+/// oracle against the step's input (`aligned`), and is then left out of the comparison with the
+/// model and of the continuation (the next step rebuilds its dataset from this snapshot anyway).
+/// Likewise a trailing partial chunk.  Returns whether anything was left out.
+fn strip_optional(op: &Op, inp: &Snap, res: &mut Res) -> bool {
+    let mut any = false;
+    let (w, f, t) = match op {
+        Op::Shuffle { .. } => (true, false, false),
+        Op::Boot { .. } | Op::BootS { .. } | Op::BootF { .. } | Op::ToOwned { .. } | Op::IntoSingle | Op::Chunks { .. } => (true, true, true),
+        Op::FeatureIter { .. } => (false, inp.fnames.len() != 1, false),
+        _ => (false, false, false),
+    };
+    if let Op::Chunks { size, .. } = op {
+        if *size > 0 && inp.n % size != 0 && res.outs.len() == inp.n / size + 1 {
+            res.outs.pop();
+            any = true;
+        }
+    }
+    for o in res.outs.iter_mut() {
+        if w && !o.w.is_empty() {
+            o.w.clear();
+            any = true;
+        }
+        if f && !o.fnames.is_empty() {
+            o.fnames.clear();
+            any = true;
+        }
+        if t && !o.tnames.is_empty() {
+            o.tnames.clear();
+            any = true;
+        }
+    }
+    any
 }
 
 /// RNG choices of a step read back from its result
@@ -814,23 +997,25 @@ fn init_snap(n: usize, p: usize, t: usize, ix1: bool, w: bool, fnm: bool, tnm: b
 fn gen_op(rng: &mut Rng, cur: &Snap, lt: char, em: &mut Em) -> Op {
     let v = rng.coin();
     let dom = dom_of(lt);
+    let draw = if rng.chance(1, 2) { 0 } else { rng.below(4) };
     loop {
-        let k = rng.below(17);
+        let k = rng.below(19);
         let op = match k {
             0 | 1 => Op::SplitV { r: gen_ratio(rng, cur.n) },
             2 if cur.counts.is_none() => Op::SplitO { r: gen_ratio(rng, cur.n) },
-            3 if cur.p > 0 => Op::Shuffle { v, seed: rng.next() },
-            4 if cur.p > 0 => {
+            3 => Op::Shuffle { v, seed: rng.next() },
+            4 => {
                 let ns = if cur.n == 0 && rng.chance(3, 4) { 0 } else { rng.below(cur.n + 3) };
-                Op::Boot { v, ns, nf: 1 + rng.below(cur.p + 1), seed: rng.next() }
+                let nf = if (cur.p == 0 && rng.chance(3, 4)) || rng.chance(1, 10) { 0 } else { 1 + rng.below(cur.p + 1) };
+                Op::Boot { v, ns, nf, seed: rng.next(), draw }
             }
-            5 if cur.p > 0 => {
+            5 => {
                 let ns = if cur.n == 0 && rng.chance(3, 4) { 0 } else { rng.below(cur.n + 3) };
-                Op::BootS { v, ns, seed: rng.next() }
+                Op::BootS { v, ns, seed: rng.next(), draw }
             }
             6 => {
                 let nf = if cur.p == 0 && rng.chance(3, 4) { 0 } else { rng.below(cur.p + 2) };
-                Op::BootF { v, nf, seed: rng.next() }
+                Op::BootF { v, nf, seed: rng.next(), draw }
             }
             7 | 8 => {
                 let m = rng.below(4);
@@ -861,11 +1046,33 @@ fn gen_op(rng: &mut Rng, cur: &Snap, lt: char, em: &mut Em) -> Op {
             }
             15 => Op::TargetIter { v },
             16 => Op::Chunks { v, size: if rng.chance(1, 12) { 0 } else { 1 + rng.below(cur.n.max(1) + 1) } },
+            17 => Op::WeightFor { v },
+            18 => {
+                // masks shorter / longer than the dataset, and none at all (`label_frequencies()`)
+                let m = match rng.below(4) {
+                    0 => 0,
+                    1 => rng.below(cur.n + 3),
+                    _ => cur.n,
+                };
+                Op::LabelFreq { v, mask: (0..m).map(|_| rng.chance(2, 3)).collect() }
+            }
             _ => continue,
         };
         em.count(&format!("step:{}", op.name()));
         return op;
     }
+}
+
+/// half of the steps on plain C-contiguous arrays, the others on F-order / offset / strided /
+/// reversed records and targets and on weights that are a slice of a larger allocation
+fn gen_lay(rng: &mut Rng, ix1: bool) -> Lay {
+    if rng.coin() {
+        return LAY_C;
+    }
+    let r = rng.below(5) as u8;
+    let t = if ix1 { *rng.pick(&[0u8, 2, 3, 4]) } else { rng.below(5) as u8 };
+    let w = if rng.coin() { 2 } else { 0 };
+    Lay { r, t, w }
 }
 
 fn gen_ratio(rng: &mut Rng, n: usize) -> f32 {
@@ -928,19 +1135,41 @@ fn history(em: &mut Em, rng: &mut Rng, nmax: usize, maxlen: usize) {
     let (mut cur, mut cur_lt) = (init.snap.clone(), lt);
     for _ in 0..len {
         let op = gen_op(rng, &cur, cur_lt, em);
-        let st = build_any(cur_lt, &cur);
+        let lay = gen_lay(rng, cur.ix1);
+        let st = build_any(cur_lt, &cur, lay);
+        let std = std_any(&st);
+        em.count(&format!("lay:r{}", lay.r));
+        em.count(&format!("lay:t{}", lay.t));
+        if !cur.w.is_empty() {
+            em.count(&format!("lay:w{}", lay.w));
+        }
+        if !promised(&op, &cur, std) {
+            // outside the property's guard: recorded, not run, not compared
+            em.count(&format!("step_unpromised:{}", op.name()));
+            toks.push(op_token(&op, lay, std, 0, &None, &None));
+            steps.push(StepRec { op, pick: 0, lay });
+            break;
+        }
         match exec_any(&st, &op) {
             None => {
                 em.count(&format!("step_panic:{}", op.name()));
-                toks.push(op_token(&op, 0, &None, &None));
-                steps.push(StepRec { op, pick: 0 });
+                toks.push(op_token(&op, lay, std, 0, &None, &None));
+                steps.push(StepRec { op, pick: 0, lay });
                 break;
             }
-            Some(res) => {
+            Some(mut res) => {
+                em.count(&format!("ok_step:{}", op.name()));
+                em.count(&format!("ok_step:{}:r{}", op.name(), lay.r));
+                if matches!(op, Op::Boot { .. } | Op::BootS { .. } | Op::BootF { .. }) {
+                    em.count(&format!("ok_draw:{}", match &op { Op::Boot { draw, .. } | Op::BootS { draw, .. } | Op::BootF { draw, .. } => *draw, _ => 0 }));
+                }
                 let (idx, fidx) = read_back(&op, &cur, &res);
+                if strip_optional(&op, &cur, &mut res) {
+                    em.count(&format!("optional_metadata_carried:{}", op.name()));
+                }
                 let pick = if res.outs.is_empty() { 0 } else { rng.below(res.outs.len()) };
-                toks.push(op_token(&op, pick, &idx, &fidx));
-                steps.push(StepRec { op, pick });
+                toks.push(op_token(&op, lay, std, pick, &idx, &fidx));
+                steps.push(StepRec { op, pick, lay });
                 if res.outs.is_empty() {
                     break;
                 }
@@ -976,25 +1205,64 @@ fn history(em: &mut Em, rng: &mut Rng, nmax: usize, maxlen: usize) {
         let (mut cur, mut cur_lt) = (init.snap.clone(), init.lt);
         let mut truth = Truth { tg: init.snap.tg.clone(), tcols: (0..t).collect() };
         for s in &steps {
-            let st = build_any(cur_lt, &cur);
+            let st = build_any(cur_lt, &cur, s.lay);
             let class = class_of(&s.op, &cur);
+            if !promised(&s.op, &cur, std_any(&st)) {
+                // outside the guard nothing is promised and nothing is compared with the model; but a
+                // dataset that *is* returned (instead of the documented panic) must still be aligned
+                // (only the operations that cut or reshape: a zero chunk size or an empty bootstrap source
+                // has no result to look at)
+                let look = matches!(s.op, Op::SplitV { .. } | Op::SplitO { .. } | Op::IntoSingle);
+                if let Some(res) = if look { exec_any(&st, &s.op) } else { None } {
+                    let n1_ok = match &s.op {
+                        Op::SplitV { r } | Op::SplitO { r } => ceil_ratio(cur.n, *r) <= cur.n,
+                        _ => false,
+                    };
+                    if n1_ok {
+                        oracle_step(ctx, &s.op, &cur, &res, &None, &None);
+                    }
+                    for o in &res.outs {
+                        tags_ok(ctx, &class, s.op.name(), o, &truth);
+                    }
+                }
+                out.push(format!("{}:unpromised", s.op.name()));
+                break;
+            }
             match exec_any(&st, &s.op) {
                 None => {
-                    if promised(&s.op, &cur) {
-                        ctx.fail("no_panic", &class, format!("{} panicked on {}", s.op.name(), show_snap(&cur)));
-                    }
+                    // every step that is run lies inside the guard
+                    ctx.fail("no_panic", &class, format!("{} (layout {}) panicked on {}", s.op.name(), s.lay.show(), show_snap(&cur)));
                     out.push(format!("{}:panic", s.op.name()));
                     break;
                 }
-                Some(res) => {
+                Some(mut res) => {
                     let (idx, fidx) = read_back(&s.op, &cur, &res);
                     oracle_step(ctx, &s.op, &cur, &res, &idx, &fidx);
+                    // carried-although-optional metadata of the picked output is still checked against the
+                    // original tags, then left out of the comparison
+                    if ctx.fails.is_empty() {
+                        if let Some(o) = res.outs.get(s.pick) {
+                            let mut tr = truth.clone();
+                            update_truth(&mut tr, &s.op, &res, s.pick);
+                            tags_ok(ctx, &class, s.op.name(), o, &tr);
+                        }
+                    }
+                    strip_optional(&s.op, &cur, &mut res);
                     let txt = match (&s.op, &res.pairs) {
                         (Op::SampleIter { .. }, Some(prs)) => {
                             if prs.is_empty() {
                                 "-".to_string()
                             } else {
                                 prs.iter().map(|(r, g)| format!("{}>{}", list(r.iter(), |x| x.to_string()), list(g.iter(), |x| x.to_string()))).collect::<Vec<_>>().join(";")
+                            }
+                        }
+                        (Op::WeightFor { .. }, _) => list(res.wfor.clone().unwrap_or_default().iter(), |x| x.to_string()),
+                        (Op::LabelFreq { .. }, _) => {
+                            let fr = res.freqs.clone().unwrap_or_default();
+                            if fr.is_empty() {
+                                "-".to_string()
+                            } else {
+                                fr.iter().map(|(l, c)| format!("{}*{}", l, c)).collect::<Vec<_>>().join(",")
                             }
                         }
                         (Op::OneVsAll { .. }, _) => res.labels.iter().zip(res.outs.iter()).map(|(l, o)| format!("{}>{}", l, show_snap(o))).collect::<Vec<_>>().join("+"),
@@ -1048,6 +1316,30 @@ fn ceil_case(em: &mut Em, base_r: &Array2<f64>, base_t: &Array1<usize>, n: usize
     });
 }
 
+/// the owned split evaluates its own copy of the expression
+fn ceil_owned_case(em: &mut Em, n: usize, r: f32) {
+    em.case(format!("ceilo n={} r={}", n, hex32(r)), |ctx| {
+        let want = ceil_ratio(n, r);
+        let ds = Dataset::new(Array2::<f64>::zeros((n, 1)), Array1::<usize>::zeros(n)).with_weights(Array1::<f32>::ones(n));
+        let got = catch_unwind(AssertUnwindSafe(|| {
+            let (a, b) = ds.split_with_ratio(r);
+            (a.nsamples(), b.nsamples(), a.weights().map(|w| w.len()).unwrap_or(0), b.weights().map(|w| w.len()).unwrap_or(0))
+        }));
+        match got {
+            Ok((a, b, wa, wb)) => {
+                ctx.require(a == want && a + b == n && wa == a && wb == b, "split_first_ceil", "ceil_grid_owned", || format!("n={} ratio={:?} ({}): parts {} + {} (weights {} + {}), ceil of the single precision product is {}", n, r, hex32(r), a, b, wa, wb, want));
+                format!("ok {}", a)
+            }
+            Err(_) => {
+                if r >= 0.0 && r <= 1.0 {
+                    ctx.fail("no_panic", "ceil_grid_owned", format!("owned split_with_ratio panicked for n={} ratio={:?}", n, r));
+                }
+                "panic".to_string()
+            }
+        }
+    });
+}
+
 fn ceil_grid(em: &mut Em, rng: &mut Rng) {
     let nmax = if em.thorough() { 2000 } else { 400 };
     let base_r = Array2::<f64>::zeros((nmax + 1, 1));
@@ -1077,6 +1369,7 @@ fn ceil_grid(em: &mut Em, rng: &mut Rng) {
         for (k, r) in all.iter().enumerate() {
             if em.thorough() || n % 3 == off || (n + k) % 7 == 0 {
                 ceil_case(em, &base_r, &base_t, n, *r);
+                ceil_owned_case(em, n, *r);
             }
         }
         // the boundary ratios k/n and their neighbours
@@ -1089,6 +1382,7 @@ fn ceil_grid(em: &mut Em, rng: &mut Rng) {
                     _ => x,
                 };
                 ceil_case(em, &base_r, &base_t, n, r);
+                ceil_owned_case(em, n, r);
             }
         }
     }
@@ -1125,15 +1419,21 @@ fn ceil_large(em: &mut Em, rng: &mut Rng) {
                     ctx.require(a == want && a + b == n, "split_first_ceil", "ceil_large", || format!("n={} ratio={:?}: first part {} + {}, want {}", n, r, a, b, want));
                     format!("ok {}", a)
                 }
-                // n as f32 may round up, so ceil(n as f32 * 1.0) can exceed n: not covered
-                Err(_) => "panic".to_string(),
+                // n as f32 may round up, so the ceiling of the single precision product can exceed n:
+                // only then is there no such split
+                Err(_) => {
+                    if want <= n {
+                        ctx.fail("no_panic", "ceil_large", format!("split_with_ratio panicked for n={} ratio={:?} although the split point {} is within the data", n, r, want));
+                    }
+                    "panic".to_string()
+                }
             }
         });
     }
 }
 
 pub fn run(em: &mut Em, rng: &mut Rng) {
-    let (hist, nmax, maxlen) = if em.thorough() { (150000, 24, 12) } else { (15000, 10, 6) };
+    let (hist, nmax, maxlen) = if em.thorough() { (150000, 24, 12) } else { (30000, 12, 6) };
     for _ in 0..hist {
         history(em, rng, nmax, maxlen);
     }
